@@ -26,6 +26,11 @@ pub struct Scenario {
     /// instructions executed by a thread that takes the exclusive lock (reorder, add_vars)
     #[serde(default)]
     pub exclusive: Vec<Instr>,
+    /// C14: after the callers have finished, the main thread drops everything but the operands
+    /// of this instruction, collects, and executes it (with the worker pool); the node need of
+    /// that step is learnt from a twin run with ample capacity
+    #[serde(default)]
+    pub retry: Option<Instr>,
     pub sched: SchedCfg,
 }
 
@@ -95,7 +100,63 @@ fn profile(check: &str) -> Profile {
     }
 }
 
+/// C14: a store that has been full (so that only the free lists can serve allocations), then a
+/// collection, then one operation spread over several workers
+fn gen_retry_scenario(seed: u64, run: u64) -> Scenario {
+    let mut rng = Rng::new(seed, run, STREAM_CONFIG);
+    let kind = *rng.pick(&[Kind::Bdd, Kind::Bcdd]);
+    let vars = rng.range(4, 6) as u32;
+    let workers = *rng.pick(&[2u32, 2, 3]);
+    let config = Config {
+        kind,
+        vars,
+        capacity: rng.range(40, 99) as u32,
+        term_capacity: 64,
+        cache: *rng.pick(&[1u32, 16, 1024]),
+        threads: workers,
+        split_depth: Some(*rng.pick(&[1u32, 2, 3, 30])),
+        probe: false,
+        oom_ok: true,
+        unguarded: false,
+        io_faults: false,
+        io_corrupt: false,
+        io_seed: 0,
+    };
+    // fill the store: many functions with large diagrams, most of them garbage later
+    // the operands first, then garbage until the store is full
+    let mut shared = vec![];
+    let (a, b, c) = (20 as Reg, 21 as Reg, 22 as Reg);
+    shared.push(Instr::Table { d: a, bits: rng.next() });
+    shared.push(Instr::Table { d: b, bits: rng.next() });
+    shared.push(Instr::Table { d: c, bits: rng.next() });
+    let nfill = rng.range(8, 20);
+    for i in 0..nfill {
+        shared.push(Instr::Table { d: (i % 12) as Reg, bits: rng.next() });
+    }
+    let target = match rng.below(3) {
+        0 => Instr::Bin { d: 23, op: *rng.pick(&[BinOp::Xor, BinOp::And, BinOp::Or, BinOp::Equiv]), a, b },
+        1 => Instr::Ite { d: 23, a, b, c },
+        _ => Instr::Bin { d: 23, op: BinOp::Xor, a: b, b: c },
+    };
+    let strategy = match rng.below(3) {
+        0 => Strategy::Random { switch_permille: *rng.pick(&[100u32, 300, 700]) },
+        1 => Strategy::Random { switch_permille: 1000 },
+        _ => Strategy::Pct { change_points: vec![rng.range(50, 3000)] },
+    };
+    Scenario {
+        config,
+        shared,
+        threads: vec![vec![target.clone()]],
+        exclusive: vec![],
+        retry: Some(target),
+        sched: SchedCfg { seed: seed ^ run.wrapping_mul(0x9e3779b97f4a7c15), strategy, max_steps: 400_000, buggify: vec![], knobs: vec![(200, 0)] },
+    }
+}
+
 fn gen_scenario(check: &str, seed: u64, run: u64) -> Scenario {
+    if check == "C14" && run % 4 == 3 {
+        return gen_retry_scenario(seed, run);
+    }
     let pf = profile(check);
     let mut rng = Rng::new(seed, run, STREAM_CONFIG);
     let kind = *rng.pick(&pf.kinds);
@@ -224,6 +285,7 @@ fn gen_scenario(check: &str, seed: u64, run: u64) -> Scenario {
         shared,
         threads,
         exclusive,
+        retry: None,
         sched: SchedCfg { seed: seed ^ run.wrapping_mul(0x9e3779b97f4a7c15), strategy, max_steps: 400_000, buggify, knobs: vec![(200, 0)] },
     }
 }
@@ -238,6 +300,25 @@ fn gen_segment(seed: u64, run: u64, salt: u64, o: &GenOpts, kind: Kind, vars: u3
 // ---------------------------------------------------------------- execution
 
 fn run_scenario(sc: &Scenario, replay: Option<Trace>) -> ScenarioResult {
+    if sc.retry.is_none() {
+        return run_scenario_with(sc, replay, None).0;
+    }
+    // twin run with ample capacity (its own seeded schedule): what does the retried step read,
+    // and how many nodes does it create?
+    let mut ample = sc.clone();
+    ample.config.capacity = 1 << 16;
+    ample.config.oom_ok = false;
+    let (ar, need) = run_scenario_with(&ample, None, None);
+    if !ar.violations.is_empty() {
+        return ar;
+    }
+    let (mut r, _) = run_scenario_with(sc, replay, Some(need));
+    r.stats.merge(&ar.stats);
+    r
+}
+
+fn run_scenario_with(sc: &Scenario, replay: Option<Trace>, need: Option<Option<RetryInfo>>) -> (ScenarioResult, Option<RetryInfo>) {
+    let mut retry_info = None;
     let mut cfg = sc.sched.clone();
     if replay.is_some() {
         cfg.strategy = Strategy::Replay;
@@ -349,6 +430,38 @@ fn run_scenario(sc: &Scenario, replay: Option<Trace>) -> ScenarioResult {
                 main.step(&Instr::Gc, &mut model, &mut ctx);
             }
             main.clear_foreign();
+            if let (Some(target), false) = (&sc.retry, ctx.failed()) {
+                // the main thread retries with the worker pool: everything but the operands is
+                // dropped and collected first (Machine::retry)
+                ctx.step = 100_002;
+                ctx.stats.bump("probe.parallel_retry");
+                let r = main.retry(target, &mut model, &mut ctx);
+                sim().settle();
+                retry_info = r;
+                if let (Some(r), Some(Some(nd))) = (r, need) {
+                    // per-thread chunks (8 slots under the guard) may legitimately be reserved
+                    // by every thread that allocates
+                    let slack = 8 * (sc.config.threads as usize + 2);
+                    let free = (sc.config.capacity as usize).saturating_sub(r.live);
+                    let comparable = r.inputs == nd.inputs && r.live == nd.live;
+                    if comparable {
+                        ctx.stats.bump("probe.parallel_retry_comparable");
+                    }
+                    if comparable && free >= nd.delta + slack && !r.ok {
+                        ctx.violate(
+                            &["C14"],
+                            "retry-fails-parallel",
+                            format!(
+                                "{:?} fails with out of memory after drop + gc although {} of {} slots are free and the operation creates {} nodes ({} workers)",
+                                target, free, sc.config.capacity, nd.delta, sc.config.threads
+                            ),
+                        );
+                    }
+                    if comparable && r.ok {
+                        ctx.stats.bump("probe.parallel_retry_succeeded");
+                    }
+                }
+            }
             if !ctx.failed() {
                 main.finish(&mut model, &mut ctx);
             }
@@ -365,15 +478,18 @@ fn run_scenario(sc: &Scenario, replay: Option<Trace>) -> ScenarioResult {
     if leaked > 0 {
         ctx.stats.add("probe.daemon_threads_left_behind", leaked);
     }
-    ScenarioResult {
-        violations: ctx.violations,
-        stats: ctx.stats,
-        sim: simstats,
-        trace,
-        obs_digest: ctx.obs.0,
-        ids_digest: ctx.ids.0,
-        instrs,
-    }
+    (
+        ScenarioResult {
+            violations: ctx.violations,
+            stats: ctx.stats,
+            sim: simstats,
+            trace,
+            obs_digest: ctx.obs.0,
+            ids_digest: ctx.ids.0,
+            instrs,
+        },
+        retry_info,
+    )
 }
 
 // ---------------------------------------------------------------- commands
